@@ -176,6 +176,10 @@ def fam_C03(seed, n):
                 if y < 0.4:
                     sc.add("purge")
                 elif y < 0.6:
+                    # other clients push the sessions out of a small cache; in half of the cases the flush of the evicted
+                    # session fails: it must then stay cached (its latest access time is known nowhere else)
+                    if r.random() < 0.5:
+                        sc.add("fault save * 0")
                     req(sc, 4)
                     sc.add("end")
                     req(sc, 5)
@@ -270,6 +274,17 @@ def fam_C05(seed, n):
             sc.add("h regen")
         sc.add("end")
         ids = k + 1
+        if k >= 2 and gr_u >= 3 and r.random() < 0.4:
+            # the hygiene predicate on the record of an ID replaced several changes ago, after that ID was presented (and
+            # redirected) inside its grace period and the process restarted (no clean-up goroutine left to delete it)
+            sc.add("wait", U)
+            for j in r.sample(range(k), r.randint(1, min(2, k))):
+                req(sc, r.choice([1, 2]), spec="val:g%d" % j, create=0)
+                sc.add("end")
+            sc.add(r.choice(["crash", "crash", "dropcache"]))
+            sc.add("wait", r.choice([gr_u - 2, gr_u - 1, gr_u, gr_u + 1]) * U)
+            for j in range(k):
+                sc.add("expired", "g%d" % j)
         for _ in range(r.randint(2, 9)):
             x = r.random()
             if x < 0.35:
